@@ -54,7 +54,7 @@ CHECKS = {
    text="The full table is enumerated, not spot-checked; conversions are compared field by field (names, unit sensitivities, zero Hessian, only higher-order terms dropped).",
    note="A refusal is observed as a caught panic; an abort would be reported by C20."),
  "C19": dict(engine="num", cat="model_checking", design="5/C19",
-   technique="TLC-written programs over signed value pairs x layouts x kinds x float position for < <= > >= == !=, abs, signum, %, sum, zero/one identities, abs_sub; each result validated by TLC (comparison on values, abs flips everything, a % b = a - b*trunc(a/b) in value and derivatives, sum = left fold from zero); quotients beyond the 32-bit integers included",
+   technique="TLC-written programs over signed value pairs x layouts x kinds x float position for < <= > >= == !=, abs, signum, %, sum, zero/one identities, abs_sub; each result validated by TLC (comparison on values, abs flips everything, a % b = a - b*trunc(a/b) in value and derivatives, sum = left fold from zero); quotients beyond the 32-bit integers and signed zeros included; random compositions containing % validated step by step",
    text="All four sign combinations of dividend and divisor, equal values, number/float pairs in both positions, Dual / Dual2 / Number.",
    note="Remainders whose quotient is within 1e-6 of (but not exactly) an integer are skipped."),
  "C11": dict(engine="curve", cat="model_checking", design="5/C11",
